@@ -24,6 +24,13 @@ class UserErr(Exception):
         self.tag = tag
 
 
+class FalsyUserErr(UserErr):
+    """A user exception whose truth value is False (exception classes that define __len__ / __bool__ exist in the wild)."""
+
+    def __len__(self) -> int:
+        return 0
+
+
 class Env:
     """Instrumentation shared by the generated functions of one case."""
 
@@ -43,7 +50,7 @@ class Env:
 
     def err(self, tag: str) -> UserErr:
         if tag not in self.errs:
-            self.errs[tag] = UserErr(tag)
+            self.errs[tag] = FalsyUserErr(tag) if tag.startswith("Z") else UserErr(tag)
         return self.errs[tag]
 
 
@@ -137,6 +144,8 @@ def _body_lines(body: dict, params: list[str], env_name: str = "_E") -> list[str
             lines.append(f"if type({first}) is int and {first} >= {body['k']}: raise {env_name}.err({body['t']!r} + str({first}))")
         lines.append(f"return ({body['t']!r},) + {tup}")
         return lines
+    if b == "genexp":
+        return [f"return (_i for _i in range({int(body['k'])}))"]       # a plain function returning a generator OBJECT
     if b == "strAttr":
         # two such bodies differ ONLY in the attribute name they call (identical bytecode, different name table)
         assert body["m"] in ("upper", "lower", "title", "swapcase")
